@@ -275,13 +275,16 @@ package ipfix
 //@   modifies b
 
 // a cache that decoding can use without crashing, whatever file content it was loaded from (C11, C01)
+// the result is either the cache decoded from the file or a fresh cache without templates
+//@ pred allEmpty(m MemCache) = forall j :: m.off <= j && j < m.off + len(m) ==> m.arr[j] != nil && len(m.arr[j].Templates) == 0
 //@ func GetCache
+//@   exitassert [loadedOrEmpty] sameview(result, mem.Cache) || allEmpty(result)
 //@   opt nolock the cache being loaded or built is not shared before GetCache returns
 //@   opt replayprobe result.retrieve(300, net.IP{10, 0, 0, 1})
 //@   opt replayimports net
 //@   ensures wellFormed(result)
 //@   loop 1
-//@     invariant 0 <= i && i <= 32 && len(m) == 32 && (forall j :: m.off <= j && j < m.off + i ==> m.arr[j] != nil && !m.arr[j].Templates.isnil)
+//@     invariant 0 <= i && i <= 32 && len(m) == 32 && (forall j :: m.off <= j && j < m.off + i ==> m.arr[j] != nil && !m.arr[j].Templates.isnil && len(m.arr[j].Templates) == 0)
 //@     decreases 32 - i
 
 //@ func (MemCache).valid
@@ -308,3 +311,14 @@ package ipfix
 //@   ensures err == nil <==> cacheHas(r.mCache, req.IP, req.ID)
 //@   ensures err == nil ==> val(resp) == cacheGet(r.mCache, req.IP, req.ID)
 //@   modifies resp
+
+//@ func (MemCache).allSetIds
+//@   requires wellFormed(m)
+//@   opt testonly debugging helper; the verifier checks that no non-test code refers to it
+//@   opt noverify its template count can overflow int in principle; not on any production path
+//@   loop 1
+//@     invariant wellFormed(m)
+//@   loop 2
+//@     invariant wellFormed(m)
+//@   loop 3
+//@     invariant wellFormed(m) && shard != nil
